@@ -710,7 +710,8 @@ class Timeseries:
         """
         roundTo = tdel.total_seconds()
 
-        seconds = (dt - self.__start_datetime).seconds
+        delta = dt - self.__start_datetime
+        seconds = delta.days * 86400 + delta.seconds
         # // is a floor division:
         rounding = (seconds + roundTo / 2) // roundTo * roundTo
         return dt + datetime.timedelta(0, rounding - seconds, -dt.microsecond)
